@@ -104,6 +104,9 @@ func (e *EventEmitter) handleSubscriber(ctx context.Context, sub event.Subscript
 	cevent := make(chan Event, 16)
 	condProcess := sync.NewCond(&sync.Mutex{})
 	queue := list.New()
+	// sending is true while the second goroutine below holds an event it has taken off
+	// the queue but not delivered yet (protected by condProcess.L)
+	sending := false
 	wg := sync.WaitGroup{}
 
 	wg.Add(1)
@@ -125,7 +128,7 @@ func (e *EventEmitter) handleSubscriber(ctx context.Context, sub event.Subscript
 			}
 
 			condProcess.L.Lock()
-			if queue.Len() == 0 {
+			if queue.Len() == 0 && !sending {
 				// try to push event to the queue
 				select {
 				case cevent <- e:
@@ -154,6 +157,7 @@ func (e *EventEmitter) handleSubscriber(ctx context.Context, sub event.Subscript
 			}
 
 			e := queue.Remove(queue.Front())
+			sending = true
 
 			// Unlock cond mutex while sending the event
 			condProcess.L.Unlock()
@@ -165,6 +169,7 @@ func (e *EventEmitter) handleSubscriber(ctx context.Context, sub event.Subscript
 			}
 
 			condProcess.L.Lock()
+			sending = false
 		}
 		condProcess.L.Unlock()
 
